@@ -300,3 +300,386 @@ Example spike_example :
   contact_tfm NumQ (DataReal NumQ) Nearest 12 1 0 0 WNone ex_grid ex_probe 1 None (frame_of sp (fmc 2))
   = Some [1; 1 # 2].
 Proof. vm_compute. reflexivity. Qed.
+
+(* ==========================================================================
+   SECOND PART — the glue around the cores (Model/TfmGlue.v; proofs in Proofs/TfmGlueProofs.v,
+   axiom-free, any numeric instance, and Proofs/TfmGlueRealProofs.v, over R).
+
+   Reading guide
+     ndt A d                    an N-d array (d = number of dimensions) as nested lists, indexed
+                                logically; nd_get a idx = a[idx]; nd_okb s a = "a has shape s"
+     nd_flatten                 Points.to_1d_points / a.reshape(-1): C index order
+     nd_reshape, np_reshape     flat.reshape(s) (np_reshape: None = ValueError on a wrong size)
+     ravel s idx                position of the multi-index idx in C order (np.ravel_multi_index)
+     contact_tfm_nd, tfm_for_view_nd   the public functions on a grid of shape s, with the shape
+                                assertions of contact_tfm and TfmResult and res.reshape(grid.shape)
+     row_at ltx lrx amps k      row k of the (two or four) focal-law tables
+     take_idx idx l             l[idx] for a list of indices (None = IndexError); take_cols: t[:, idx]
+     default_weights_z tx rx    ut.default_timetrace_weights on integer index VALUES (None = ValueError)
+     arr2, a_rows, a_T, a_ascontiguous, a_asfortran   a 2-d array with its memory order
+     tfm_for_view_mem           tfm_for_view on ray times with their memory order
+     weights_x, contact_tfm_x   timetrace_weights as the caller writes it; GRaise / GShapeDrift
+     maximum_intensity_in_rectbox(_nd), in_rectbox   TfmResult.maximum_intensity_in_rectbox
+   Not covered here either: binary64 rounding, numba fastmath, dtype promotion. *)
+From Arim Require Import Model.TfmGlue Proofs.TfmGlueProofs Proofs.TfmGlueRealProofs.
+Local Close Scope Q_scope.
+Local Close Scope R_scope.
+
+(* ---- N-d arrays: reshape and the C-order enumeration ------------------------------------ *)
+(* flat.reshape(s).reshape(-1) = flat   and   a.reshape(-1).reshape(a.shape) = a *)
+Theorem flatten_of_reshape : forall A (dflt : A) s flat,
+  length flat = shape_size s -> nd_flatten (length s) (nd_reshape dflt s flat) = flat.
+Proof. exact @flatten_reshape. Qed.
+
+Theorem reshape_of_flatten : forall A (dflt : A) s (t : ndt A (length s)),
+  nd_okb s t = true -> nd_reshape dflt s (nd_flatten (length s) t) = t.
+Proof. exact @reshape_flatten. Qed.
+
+(* the element at a multi-index of a reshaped array is the flat element at the C-order position;
+   the element of an array at a multi-index is the element of to_1d_points at that position *)
+Theorem reshaped_element_position : forall A (dflt : A) s flat idx k,
+  length flat = shape_size s -> ravel s idx = Some k ->
+  nd_get (length s) (nd_reshape dflt s flat) idx = nth_error flat k.
+Proof. exact @get_reshape. Qed.
+
+Theorem to_1d_points_position : forall A s (t : ndt A (length s)) idx k,
+  nd_okb s t = true -> ravel s idx = Some k ->
+  nd_get (length s) t idx = nth_error (nd_flatten (length s) t) k.
+Proof. exact @get_flatten. Qed.
+
+(* np.ndindex enumerates in C order: its k-th multi-index ravels to k (so ravel is a bijection
+   from the multi-indices of the shape onto range(prod(shape))) *)
+Theorem ndindex_is_c_order : forall s, map (ravel s) (ndindex s) = map Some (seq 0 (shape_size s)).
+Proof. exact ravel_ndindex. Qed.
+
+(* to_1d_points ; point-wise computation ; reshape(shape)  =  the point-wise map on the N-d array *)
+Theorem reshape_of_pointwise_values : forall A B (dflt : B) (f : A -> B) s (t : ndt A (length s)),
+  nd_okb s t = true -> nd_reshape dflt s (map f (nd_flatten (length s) t)) = nd_map f (length s) t.
+Proof. exact @reshape_map_flatten. Qed.
+
+(* ---- contact_tfm / tfm_for_view on a grid of any shape ---------------------------------- *)
+(* on a well-formed grid of any shape (0-d, 1-d, ..., with or without amplitudes, any weights
+   argument) none of the glue assertions fires and the reshape succeeds: the call is the 1-d call
+   on to_1d_points followed by reshape(grid.shape); it raises exactly when the 1-d call raises *)
+Theorem contact_tfm_any_shape : forall T D (N : Num T) (V : Data T D) sc ns dt t0 fill wa s
+    (grid : ndt (T * T * T) (length s)) probe v amps ss,
+  nd_okb s grid = true ->
+  contact_tfm_nd N V sc ns dt t0 fill wa s grid probe v amps ss
+  = option_map (nd_reshape (dzero V) s)
+               (contact_tfm N V sc ns dt t0 fill wa (nd_flatten (length s) grid) probe v amps ss).
+Proof. intros T D N V. exact (contact_tfm_nd_eq N V). Qed.
+
+(* the pixel at a multi-index is the 1-d value at the C-order position of that multi-index, and
+   that position holds the grid point of the same multi-index; the image has the shape of the grid *)
+Theorem contact_tfm_pixel_at_own_index : forall T D (N : Num T) (V : Data T D) sc ns dt t0 fill wa s
+    (grid : ndt (T * T * T) (length s)) probe v amps ss img,
+  nd_okb s grid = true ->
+  contact_tfm_nd N V sc ns dt t0 fill wa s grid probe v amps ss = Some img ->
+  exists res,
+    contact_tfm N V sc ns dt t0 fill wa (nd_flatten (length s) grid) probe v amps ss = Some res /\
+    nd_flatten (length s) img = res /\ nd_okb s img = true /\
+    forall idx k, ravel s idx = Some k ->
+      nd_get (length s) img idx = nth_error res k /\
+      nd_get (length s) grid idx = nth_error (nd_flatten (length s) grid) k.
+Proof. intros T D N V. exact (contact_tfm_nd_get N V). Qed.
+
+(* without amplitudes: ONE function of a point (it depends on the frame, the weights and the
+   options, not on the grid) gives every pixel from the grid point at the same multi-index *)
+Theorem contact_tfm_image_is_pointwise : forall T D (N : Num T) (V : Data T D) sc ns dt t0 fill wa s
+    (grid : ndt (T * T * T) (length s)) probe v ss img,
+  nd_okb s grid = true ->
+  contact_tfm_nd N V sc ns dt t0 fill wa s grid probe v None ss = Some img ->
+  exists wss, weigh_timetraces V (resolve_weights N wa ss) ss = Some wss /\
+    forall idx, nd_get (length s) img idx
+                = option_map (contact_pixel N V sc ns dt t0 fill v probe wss) (nd_get (length s) grid idx).
+Proof. intros T D N V. exact (contact_tfm_nd_pixel N V). Qed.
+
+(* tfm_for_view with ray times of shape (numelements, prod(grid.shape)): never raises, the pixel at
+   a multi-index reads column ravel(idx) of the two ray-time tables *)
+Theorem tfm_for_view_any_shape : forall T D (N : Num T) (V : Data T D) sc ns dt t0 fill s rtx rrx ss,
+  Forall (fun row => length row = shape_size s) (r_times rtx) ->
+  Forall (fun row => length row = shape_size s) (r_times rrx) ->
+  exists img, tfm_for_view_nd N V sc ns dt t0 fill s rtx rrx None ss = Some img /\
+    nd_okb s img = true /\
+    forall idx k, ravel s idx = Some k ->
+      nd_get (length s) img idx = Some (view_pixel N V sc ns dt t0 fill (r_times rtx) (r_times rrx) ss k).
+Proof. intros T D N V. exact (tfm_for_view_nd_get N V). Qed.
+
+(* ---- a pixel does not depend on the pixels imaged with it ------------------------------- *)
+(* two calls of delay_and_sum on the same frame, weights and options: pixels whose rows of the
+   focal-law tables coincide have the same value, whatever the other rows and their positions *)
+Theorem pixel_independent_of_other_pixels : forall T D (N : Num T) (V : Data T D)
+    sc ns dt t0 fill w ss ltx lrx amps img ltx' lrx' amps' img' k k',
+  delay_and_sum N V sc ns dt t0 fill w ltx lrx amps ss = Some img ->
+  delay_and_sum N V sc ns dt t0 fill w ltx' lrx' amps' ss = Some img' ->
+  has_amps amps = has_amps amps' ->
+  row_at ltx lrx amps k = row_at ltx' lrx' amps' k' ->
+  nth_error img k = nth_error img' k'.
+Proof. intros T D N V. exact (pixel_independence N V). Qed.
+
+(* block-wise imaging: the image of a concatenation of point lists is the concatenation of the images *)
+Theorem contact_tfm_blockwise : forall T D (N : Num T) (V : Data T D) sc ns dt t0 fill wa g1 g2 probe v ss,
+  contact_tfm N V sc ns dt t0 fill wa (g1 ++ g2) probe v None ss
+  = match contact_tfm N V sc ns dt t0 fill wa g1 probe v None ss,
+          contact_tfm N V sc ns dt t0 fill wa g2 probe v None ss with
+    | Some a, Some b => Some (a ++ b)
+    | _, _ => None
+    end.
+Proof. intros T D N V. exact (contact_tfm_app N V). Qed.
+
+(* imaging a sub-list of the points (any selection, repetition and order) gives the sub-list of the values *)
+Theorem contact_tfm_sublist : forall T D (N : Num T) (V : Data T D) sc ns dt t0 fill wa grid probe v ss img idx sub,
+  contact_tfm N V sc ns dt t0 fill wa grid probe v None ss = Some img ->
+  take_idx idx grid = Some sub ->
+  contact_tfm N V sc ns dt t0 fill wa sub probe v None ss = take_idx idx img.
+Proof. intros T D N V. exact (contact_tfm_take N V). Qed.
+
+Theorem tfm_for_view_sublist : forall T D (N : Num T) (V : Data T D) sc ns dt t0 fill p rtx rrx ss img idx ttx' trx',
+  Forall (fun row => length row = p) (r_times rtx) -> Forall (fun row => length row = p) (r_times rrx) ->
+  tfm_for_view N V sc ns dt t0 fill p rtx rrx None ss = Some img ->
+  take_cols idx (r_times rtx) = Some ttx' -> take_cols idx (r_times rrx) = Some trx' ->
+  (forall i, In i idx -> i < p) ->
+  tfm_for_view N V sc ns dt t0 fill (length idx) (mkRays ttx' []) (mkRays trx' []) None ss = take_idx idx img.
+Proof. intros T D N V. exact (tfm_for_view_take N V). Qed.
+
+(* ---- default_timetrace_weights on ARBITRARY frames -------------------------------------- *)
+(* any tx / rx lists of integers (any values, repeated pairs, any order, any subset of the matrix):
+   timetrace k gets 1 exactly when the pair (rx[k], tx[k]) occurs somewhere in the frame, else 2 *)
+Theorem default_weights_arbitrary_frames : forall tx rx w,
+  default_weights_z tx rx = Some w ->
+  length w = length tx /\
+  forall k a b, nth_error tx k = Some a -> nth_error rx k = Some b ->
+    (In (b, a) (combine tx rx) -> nth_error w k = Some 1%Z) /\
+    (~ In (b, a) (combine tx rx) -> nth_error w k = Some 2%Z).
+Proof. exact default_weights_z_spec. Qed.
+
+Theorem default_weights_length_check : forall tx rx, default_weights_z tx rx = None <-> length tx <> length rx.
+Proof. exact default_weights_z_raises. Qed.
+
+(* independent of the storage order: the weights travel with the timetraces *)
+Theorem default_weights_order_independent : forall tx rx tx' rx' w w',
+  Permutation (combine tx rx) (combine tx' rx') ->
+  default_weights_z tx rx = Some w -> default_weights_z tx' rx' = Some w' ->
+  Permutation (combine (combine tx rx) w) (combine (combine tx' rx') w').
+Proof. exact default_weights_z_perm. Qed.
+
+(* on element indices (non-negative) it is the model of C15 that hmc_eq_fmc uses *)
+Theorem default_weights_values_are_model : forall l : list (nat * nat),
+  default_weights_z (map (fun p => Z.of_nat (fst p)) l) (map (fun p => Z.of_nat (snd p)) l)
+  = Some (map Z.of_nat (default_timetrace_weights l)).
+Proof. exact default_weights_z_nat. Qed.
+
+(* ---- memory order of the ray times ------------------------------------------------------ *)
+(* `.T` is the transposed table for C- and for Fortran-ordered arrays (no condition on the buffer);
+   np.ascontiguousarray / np.asfortranarray keep the logical content *)
+Theorem transposed_view_is_transpose : forall A (dflt : A) (a : arr2 A),
+  a_rows dflt (a_T a) = transpose (a_p a) (a_rows dflt a).
+Proof. exact @a_rows_T. Qed.
+
+Theorem memory_copies_keep_content : forall A (dflt : A) (a : arr2 A),
+  a_rows dflt (a_ascontiguous dflt a) = a_rows dflt a /\ a_rows dflt (a_asfortran dflt a) = a_rows dflt a.
+Proof. intros A dflt a. exact (conj (a_rows_ascontiguous dflt a) (a_rows_asfortran dflt a)). Qed.
+
+(* tfm_for_view reads the LOGICAL table: lookup_times[point][element] = times[element][point] *)
+Theorem tfm_for_view_memory_order : forall T D (N : Num T) (V : Data T D) sc ns dt t0 fill p ttx trx amps ss,
+  a_p ttx = p -> a_p trx = p ->
+  tfm_for_view_mem N V sc ns dt t0 fill ttx trx amps ss
+  = tfm_for_view N V sc ns dt t0 fill p (mkRays (a_rows (n0 N) ttx) []) (mkRays (a_rows (n0 N) trx) []) amps ss.
+Proof. intros T D N V. exact (tfm_for_view_mem_logical N V). Qed.
+
+(* ray tracing with convert_to_fortran_order=True or False: same image *)
+Theorem tfm_for_view_fortran_rays : forall T D (N : Num T) (V : Data T D) sc ns dt t0 fill ttx trx amps ss,
+  tfm_for_view_mem N V sc ns dt t0 fill (a_asfortran (n0 N) ttx) (a_asfortran (n0 N) trx) amps ss
+  = tfm_for_view_mem N V sc ns dt t0 fill ttx trx amps ss.
+Proof. intros T D N V. exact (tfm_for_view_fortran N V). Qed.
+
+(* ---- an explicit timetrace_weights argument --------------------------------------------- *)
+Theorem explicit_weights_one_per_timetrace : forall T D (N : Num T) (V : Data T D) sc ns dt t0 fill w grid probe v amps ss,
+  length w = length ss ->
+  contact_tfm_x N V sc ns dt t0 fill (XArray w) grid probe v amps ss
+  = glue_of_option (contact_tfm N V sc ns dt t0 fill (WGiven w) grid probe v amps ss).
+Proof. intros T D N V. exact (contact_tfm_x_matching N V). Qed.
+
+(* a float, or a list of one value: broadcast to every timetrace *)
+Theorem explicit_weights_single_value : forall T D (N : Num T) (V : Data T D) sc ns dt t0 fill w0 grid probe v amps ss,
+  contact_tfm_x N V sc ns dt t0 fill (XArray [w0]) grid probe v amps ss
+  = glue_of_option (contact_tfm N V sc ns dt t0 fill (WGiven (repeat w0 (length ss))) grid probe v amps ss)
+  /\ contact_tfm_x N V sc ns dt t0 fill (XScalar w0) grid probe v amps ss
+     = contact_tfm_x N V sc ns dt t0 fill (XArray [w0]) grid probe v amps ss.
+Proof. intros T D N V. exact (contact_tfm_x_single N V). Qed.
+
+Theorem explicit_weights_wrong_length_raises : forall T D (N : Num T) (V : Data T D) sc ns dt t0 fill w grid probe v amps ss,
+  length w <> length ss -> length w <> 1 -> length ss <> 1 ->
+  contact_tfm_x N V sc ns dt t0 fill (XArray w) grid probe v amps ss = GRaise.
+Proof. intros T D N V. exact (contact_tfm_x_mismatch N V). Qed.
+
+(* FINDING (recorded, explicit weights are outside the statement of C12): the only way to reach
+   the kernel with a number of weighted rows different from len(frame.tx) — out-of-bounds reads of
+   tx / rx, observed as a segmentation fault or as garbage — is a frame of exactly ONE timetrace
+   with a weight list of length 0 or >= 2 in a call that would otherwise succeed *)
+Theorem explicit_weights_shape_drift_iff : forall T D (N : Num T) (V : Data T D) sc ns dt t0 fill wx grid probe v amps ss,
+  contact_tfm_x N V sc ns dt t0 fill wx grid probe v amps ss = GShapeDrift
+  <-> exists w, wx = XArray w /\ length ss = 1 /\ length w <> 1 /\
+                contact_tfm N V sc ns dt t0 fill WNone grid probe v amps ss <> None.
+Proof. intros T D N V. exact (contact_tfm_x_drift_iff N V). Qed.
+
+(* ---- the warning branches ---------------------------------------------------------------- *)
+Theorem expanded_frame_never_warns : forall D (ss e : list (scan D)) amps,
+  expand_frame ss = Some e -> tfm_for_view_warns e = false /\ contact_tfm_warns amps e = false.
+Proof. exact @expanded_frame_no_warning. Qed.
+
+Local Open Scope R_scope.
+(* ---- re-ordering the timetraces (over R) ------------------------------------------------- *)
+(* default weights are recomputed from the re-ordered frame: same image, with or without amplitudes *)
+Theorem timetrace_order_irrelevant_default : forall D (V : Data R D), DataLaws V ->
+  forall sc ns dt t0 fill grid probe v amps ss ss',
+  Permutation ss ss' ->
+  contact_tfm NumR V sc ns dt t0 fill WDefault grid probe v amps ss
+  = contact_tfm NumR V sc ns dt t0 fill WDefault grid probe v amps ss'.
+Proof. intros D V L. exact (contact_tfm_perm_default V L). Qed.
+
+(* explicit weights re-ordered together with their timetraces *)
+Theorem timetrace_order_irrelevant_given : forall D (V : Data R D), DataLaws V ->
+  forall sc ns dt t0 fill grid probe v amps ss ss' w w',
+  length w = length ss -> length w' = length ss' ->
+  Permutation (combine ss w) (combine ss' w') ->
+  contact_tfm NumR V sc ns dt t0 fill (WGiven w) grid probe v amps ss
+  = contact_tfm NumR V sc ns dt t0 fill (WGiven w') grid probe v amps ss'.
+Proof. intros D V L. exact (contact_tfm_perm_given V L). Qed.
+
+Theorem timetrace_order_irrelevant_view : forall D (V : Data R D), DataLaws V ->
+  forall sc ns dt t0 fill p rtx rrx amps ss ss',
+  Permutation ss ss' ->
+  tfm_for_view NumR V sc ns dt t0 fill p rtx rrx amps ss
+  = tfm_for_view NumR V sc ns dt t0 fill p rtx rrx amps ss'.
+Proof. intros D V L. exact (tfm_for_view_perm V L). Qed.
+
+(* on a frame complete under reciprocity (FMC, any expanded frame) "default" weights = no weights *)
+Theorem default_weights_on_complete_frame : forall D (V : Data R D), DataLaws V ->
+  forall sc ns dt t0 fill grid probe v amps ss,
+  frame_complete ss = true ->
+  contact_tfm NumR V sc ns dt t0 fill WDefault grid probe v amps ss
+  = contact_tfm NumR V sc ns dt t0 fill WNone grid probe v amps ss.
+Proof. intros D V L. exact (contact_tfm_default_complete V L). Qed.
+
+(* ---- TfmResult.maximum_intensity_in_rectbox ---------------------------------------------- *)
+(* the box is closed on every given side, unbounded on every side left to None *)
+Theorem rectbox_is_closed_box : forall b x y z,
+  in_rectbox NumR b (x, y, z) = true <->
+  (forall m, b_xmin b = Some m -> m <= x) /\ (forall m, b_xmax b = Some m -> x <= m) /\
+  (forall m, b_ymin b = Some m -> m <= y) /\ (forall m, b_ymax b = Some m -> y <= m) /\
+  (forall m, b_zmin b = Some m -> m <= z) /\ (forall m, b_zmax b = Some m -> z <= m).
+Proof. exact in_rectbox_spec. Qed.
+
+(* the value returned is |pixel| of a grid point of the box and no grid point of the box has a
+   greater |pixel| (real or complex samples: dabs is any function) *)
+Theorem maximum_intensity_is_max_in_box : forall D (dabs : D -> R) grid res b M,
+  maximum_intensity_in_rectbox NumR no_nan dabs grid res b = Some M <->
+  (exists k q v, nth_error grid k = Some q /\ nth_error res k = Some v /\ in_rectbox NumR b q = true /\ dabs v = M) /\
+  (forall k q v, nth_error grid k = Some q -> nth_error res k = Some v -> in_rectbox NumR b q = true -> dabs v <= M).
+Proof. exact @max_intensity_spec. Qed.
+
+(* ValueError exactly when no grid point lies in the box *)
+Theorem maximum_intensity_empty_box : forall D (dabs : D -> R) grid res b,
+  maximum_intensity_in_rectbox NumR no_nan dabs grid res b = None <->
+  (forall k q v, nth_error grid k = Some q -> nth_error res k = Some v -> in_rectbox NumR b q = false).
+Proof. exact @max_intensity_none. Qed.
+
+(* on the N-d image and grid of a TfmResult it is the 1-d statement on their C-order lists *)
+Theorem maximum_intensity_any_shape : forall T D (N : Num T) isnan (dabs : D -> T) d
+    (grid : ndt (T * T * T) d) (res : ndt D d) b,
+  maximum_intensity_in_rectbox_nd N isnan dabs d grid res b
+  = maximum_intensity_in_rectbox N isnan dabs (nd_flatten d grid) (nd_flatten d res) b.
+Proof. intros T D N. exact (maximum_intensity_nd_flat N). Qed.
+
+(* np.abs on real and complex samples is absolutely homogeneous ... *)
+Theorem abs_is_homogeneous :
+  (forall c v, abs_real NumR (dscale (DataReal NumR) c v) = Rabs c * abs_real NumR v) /\
+  (forall c v, abs_cplx NumR (dscale (DataCplx NumR) c v) = Rabs c * abs_cplx NumR v).
+Proof. exact (conj abs_real_scale abs_cplx_scale). Qed.
+
+(* ... hence HMC = FMC carries over to the maximum intensity of any area (None = the whole image):
+   N_hmc * max|I_hmc| = N_fmc * max|I_fmc| *)
+Theorem maximum_intensity_hmc_fmc : forall D (V : Data R D), DataLaws V -> forall (dabs : D -> R)
+    sc ns dt t0 grid probe v (g : nat -> nat -> list D) n area,
+  (forall c x, dabs (dscale V c x) = Rabs c * dabs x) ->
+  (forall i j, g i j = g j i) ->
+  exists Ih If,
+    contact_tfm NumR V sc ns dt t0 (dzero V) WDefault grid probe v None (frame_of g (hmc n)) = Some Ih /\
+    contact_tfm NumR V sc ns dt t0 (dzero V) WDefault grid probe v None (frame_of g (fmc n)) = Some If /\
+    option_map (Rmult (INR (length (hmc n)))) (maximum_intensity_in_area NumR no_nan dabs Ih area)
+    = option_map (Rmult (INR (n * n))) (maximum_intensity_in_area NumR no_nan dabs If area).
+Proof. intros D V L dabs. exact (hmc_fmc_max_intensity_contact V L dabs). Qed.
+
+(* ---- non-vacuity: the glue model computes (exact rationals; every value below was replayed on
+   the real library, see .work/prover_C12_TIE.md) ------------------------------------------- *)
+Local Close Scope R_scope.
+Local Open Scope Q_scope.
+(* a Points object of shape (2, 1, 3); distances to the elements (0,0,0), (3,0,0) are rational *)
+Definition ex_grid3 : ndt (Q * Q * Q) 3 :=
+  [[[(0, 0, 4); (0, 0, 0); (8, 0, 0)]]; [[(1, 0, 0); (-4, 0, 0); (0, 4, 0)]]].
+
+Example glue_grid_shape : nd_okb [2; 1; 3]%nat ex_grid3 = true
+  /\ nd_flatten 3 ex_grid3 = [(0, 0, 4); (0, 0, 0); (8, 0, 0); (1, 0, 0); (-4, 0, 0); (0, 4, 0)]
+  /\ ravel [2; 1; 3]%nat [1; 0; 2]%nat = Some 5%nat /\ ravel [2; 1; 3]%nat [1; 1; 0]%nat = None
+  /\ np_reshape 0 [3; 2]%nat [10; 11; 12; 13; 14] = None.
+Proof. vm_compute. repeat split; reflexivity. Qed.
+
+Example glue_contact_nd :
+  contact_tfm_nd NumQ (DataReal NumQ) Nearest 12 1 0 0 WDefault [2; 1; 3]%nat ex_grid3 ex_probe 1 None (frame_of ex_g (fmc 2))
+  = Some [[[83 # 2; 71 # 2; 30]]; [[71 # 2; 25 # 2; 83 # 2]]]
+  /\ contact_tfm_nd NumQ (DataReal NumQ) Linear 12 1 (1 # 2) (-7) WDefault [2; 1; 3]%nat ex_grid3 ex_probe 1 None (frame_of ex_g (hmc 2))
+     = Some [[[164 # 3; 89 # 2; 211 # 6]]; [[140 # 3; 83 # 6; 164 # 3]]].
+Proof. vm_compute. split; reflexivity. Qed.
+
+(* a sub-list of the points, in another order and with a repetition *)
+Example glue_sublist :
+  contact_tfm NumQ (DataReal NumQ) Nearest 12 1 0 0 WDefault [(-4, 0, 0); (0, 0, 4); (-4, 0, 0)] ex_probe 1 None (frame_of ex_g (fmc 2))
+  = take_idx [4; 0; 4]%nat [83 # 2; 71 # 2; 30; 71 # 2; 25 # 2; 83 # 2].
+Proof. vm_compute. reflexivity. Qed.
+
+Example glue_default_weights :
+  default_weights_z [0; 0; 2; 1]%Z [0; 1; 1; 0]%Z = Some [1; 1; 2; 1]%Z
+  /\ default_weights_z [0; 0; 0]%Z [1; 1; 0]%Z = Some [2; 2; 1]%Z
+  /\ default_weights_z [5; -3; 7; 7]%Z [7; 5; 5; -3]%Z = Some [1; 2; 1; 2]%Z
+  /\ default_weights_z [0; 0; 0]%Z [1; 1]%Z = None.
+Proof. vm_compute. repeat split; reflexivity. Qed.
+
+(* C- and Fortran-ordered ray times (2 elements x 2 grid points) *)
+Example glue_memory_order :
+  let tC := mkArr2 2 2 false [4; 5; 5; 4] in let rC := mkArr2 2 2 false [1; 2; 3; 1] in
+  a_asfortran 0 (mkArr2 2 3 false [1; 2; 3; 4; 5; 6]) = mkArr2 2 3 true [1; 4; 2; 5; 3; 6]
+  /\ a_rows 0 (a_T (mkArr2 2 3 true [1; 4; 2; 5; 3; 6])) = [[1; 4]; [2; 5]; [3; 6]]
+  /\ tfm_for_view_mem NumQ (DataReal NumQ) Linear 12 1 (1 # 2) 0 tC rC None (frame_of ex_g (fmc 2)) = Some [77 # 2; 38]
+  /\ tfm_for_view_mem NumQ (DataReal NumQ) Linear 12 1 (1 # 2) 0 (a_asfortran 0 tC) rC None (frame_of ex_g (fmc 2)) = Some [77 # 2; 38]
+  /\ tfm_for_view_nd NumQ (DataReal NumQ) Linear 12 1 (1 # 2) 0 [2; 1]%nat (mkRays [[4; 5]; [5; 4]] []) (mkRays [[1; 2]; [3; 1]] []) None
+                     (frame_of ex_g (fmc 2)) = Some [[77 # 2]; [38]].
+Proof. vm_compute. repeat split; reflexivity. Qed.
+
+Example glue_explicit_weights :
+  let run wx ss := contact_tfm_x NumQ (DataReal NumQ) Nearest 12 1 0 0 wx ex_grid ex_probe 1 None ss in
+  run (XArray [2]) (frame_of ex_g (fmc 2)) = GOk [83; 83]
+  /\ run (XScalar 2) (frame_of ex_g (fmc 2)) = GOk [83; 83]
+  /\ run (XArray [1; 2; 3; 4]) (frame_of ex_g (fmc 2)) = GOk [583 # 4; 577 # 4]
+  /\ run (XArray [1; 1; 1]) (frame_of ex_g (fmc 2)) = GRaise
+  /\ run XNd (frame_of ex_g (fmc 2)) = GRaise
+  /\ run (XArray [3]) (frame_of ex_g [(0, 1)%nat]) = GOk [57; 57]
+  /\ run (XArray [1; 1; 1]) (frame_of ex_g [(0, 1)%nat]) = GShapeDrift.
+Proof. vm_compute. repeat split; reflexivity. Qed.
+
+Example glue_maximum_intensity :
+  let nn := fun _ : Q => false in
+  maximum_intensity_in_rectbox NumQ nn (abs_real NumQ) ex_grid [1; -5] (mkBox None None None None None None) = Some 5
+  /\ maximum_intensity_in_rectbox NumQ nn (abs_real NumQ) ex_grid [1; -5] (mkBox (Some 0) (Some 0) None None None None) = Some 1
+  /\ maximum_intensity_in_rectbox NumQ nn (abs_real NumQ) ex_grid [1; -5] (mkBox (Some 3) None None None None None) = Some 5
+  /\ maximum_intensity_in_rectbox NumQ nn (abs_real NumQ) ex_grid [1; -5] (mkBox (Some 10) None None None None None) = None
+  /\ maximum_intensity_in_rectbox NumQ nn (abs_cplx NumQ) ex_grid [(3, 4); (-5, 0)] (mkBox None (Some 0) None None None None) = Some 5
+  /\ maximum_intensity_in_rectbox_nd NumQ nn (abs_real NumQ) 3 ex_grid3 [[[1; -5; 2]]; [[-9; 3; 4]]]
+                                     (mkBox None (Some 0) None None None None) = Some 5.
+Proof. vm_compute. repeat split; reflexivity. Qed.
+
+Example glue_warnings :
+  tfm_for_view_warns (frame_of ex_g (hmc 2)) = true /\ tfm_for_view_warns (frame_of ex_g (fmc 2)) = false
+  /\ contact_tfm_warns None (frame_of ex_g (hmc 2)) = false
+  /\ contact_tfm_warns (Some ([[1; 1]], [[1; 1]])) (frame_of ex_g (hmc 2)) = true.
+Proof. vm_compute. repeat split; reflexivity. Qed.
